@@ -386,6 +386,22 @@ def _lin(t):
     return atoms, const
 
 
+def _find_ite(t):
+    seen = set()
+    stack = [t]
+    while stack:
+        x = stack.pop()
+        if x.get_id() in seen:
+            continue
+        seen.add(x.get_id())
+        if z3.is_app(x) and x.decl().kind() == z3.Z3_OP_ITE and x.sort() == z3.RealSort():
+            return x
+        if z3.is_app(x) and x.decl().kind() == z3.Z3_OP_UNINTERPRETED:
+            continue
+        stack.extend(x.children())
+    return None
+
+
 class MathAbs:
     def __init__(self, eng):
         self.eng = eng
@@ -497,6 +513,13 @@ class MathAbs:
     def _pair(self, kind, x):
         """(cos,sin) resp. (cosh,sinh) of real value x as z3 terms"""
         t = z3real(x)
+        # push the function through if-then-else subterms of the argument
+        ifn = _find_ite(t)
+        if ifn is not None:
+            c, a, b = ifn.children()
+            pa = self._pair(kind, SV(z3.substitute(t, (ifn, a))))
+            pb = self._pair(kind, SV(z3.substitute(t, (ifn, b))))
+            return (z3.If(c, pa[0], pb[0]), z3.If(c, pa[1], pb[1]))
         atoms, const = _lin(t)
         res = (z3.RealVal(1), z3.RealVal(0))
         for key in sorted(atoms):
